@@ -171,6 +171,11 @@ END_SCHEMA;
         for ex in range(-40, 41):
             k += 1
             cons.append('  r%d : REAL := %sE%d;' % (k, mant, ex))
+    # precision / width specifications wherever a type can stand
+    out['g_widths'] = ('SCHEMA g_widths;\nTYPE coarse = REAL (4); END_TYPE;\nTYPE code = STRING (10) FIXED; END_TYPE;\nTYPE nm = STRING (30); END_TYPE;\nTYPE bits = BINARY (8); END_TYPE;\n'
+                       'TYPE fbits = BINARY (16) FIXED; END_TYPE;\nTYPE lr = LIST [1:?] OF REAL (6); END_TYPE;\n'
+                       'ENTITY e; a : REAL (3); b : OPTIONAL STRING (5) FIXED; c : ARRAY [1:3] OF REAL (2); d : SET OF STRING (7);\n DERIVE\n  h : REAL (2) := a / 2.0;\nEND_ENTITY;\n'
+                       'FUNCTION f (p : REAL (5); q : STRING (2)) : REAL (8);\n  LOCAL\n    t : REAL (9) := 0.5;\n    digits : INTEGER := 3;\n    u : REAL (digits + 2) := 1.5;\n  END_LOCAL;\n  RETURN (t + u + p);\nEND_FUNCTION;\nEND_SCHEMA;\n')
     out['g_reals'] = 'SCHEMA g_reals;\nCONSTANT\n' + '\n'.join(cons) + '\nEND_CONSTANT;\nEND_SCHEMA;\n'
     return out
 
@@ -263,6 +268,12 @@ def compare(src, out):
         for k in sorted(ka & kb):
             ca = expref.canon_decl(da[k])
             cb = expref.canon_decl(db[k])
+            if ca != cb and ('op', '{') in ca and ('op', '{') not in cb:
+                # the (listed) rewriting of intervals into conjunctions: report it, then compare what lies beyond it
+                p0 = ca.index(('op', '{'))
+                res.append(('not-equivalent/%s/interval-desugared' % construct_of(k[0], ca, p0), '%s %s: source ...%s  |  output ...%s' % (
+                    k[0], k[1], expref.render(ca[max(0, p0 - 6):p0 + 6], 110), expref.render(cb[max(0, p0 - 6):p0 + 6], 110))))
+                ca = expref.canon_decl(expref.desugar_intervals(da[k])[0])
             if ca != cb:
                 p = expref.first_diff(ca, cb)
                 x = ca[p] if p < len(ca) else None
